@@ -165,9 +165,7 @@ Proof.
   induction t as [b|i rd|u IH]; simpl; intros Hr.
   - reflexivity.
   - unfold draw, emit, set_var. simpl. f_equal. f_equal. f_equal. f_equal.
-    apply map_ext_in. intros a Ha. unfold upd.
-    destruct (Nat.eqb a x) eqn:E; [|reflexivity].
-    apply Nat.eqb_eq in E. subst a. exfalso.
+    apply map_ext_in. intros a Ha. apply get_upd_other. intros ->.
     assert (existsb (Nat.eqb x) rd = true) by (apply existsb_exists; exists x; split; [exact Ha|apply Nat.eqb_refl]).
     congruence.
   - rewrite (IH Hr). destruct (eval_test o st u); reflexivity.
